@@ -60,6 +60,18 @@ add("build.fragment", "fragment", "quote", lambda Y, t: Y.URL.build(scheme="http
 add("build.query.dict", "qpair", "quote", lambda Y, t: Y.URL.build(scheme="http", host="h.example", query={t: t}), needs=lambda t: t != "")
 add("build.query.pairs", "qpair", "quote", lambda Y, t: Y.URL.build(scheme="http", host="h.example", query=[(t, t)]), needs=lambda t: t != "")
 
+# sibling combinations: a password without a user, a user while a password exists, authority text
+add("build.password.nouser", "password", "quote", lambda Y, t: Y.URL.build(scheme="http", host="h.example", password=t), raw=lambda u: u.raw_password, readback=lambda u: u.password)
+add("build.password.emptyuser", "password", "quote", lambda Y, t: Y.URL.build(scheme="http", host="h.example", user="", password=t), raw=lambda u: u.raw_password,
+    readback=lambda u: u.password)
+add("build.user.password", "user", "quote", lambda Y, t: Y.URL.build(scheme="http", host="h.example", user=t, password="p w"), raw=lambda u: u.raw_user, readback=lambda u: u.user,
+    needs=lambda t: t != "")
+add("build.authority.password", "password", "other", lambda Y, t: Y.URL.build(scheme="http", authority=":%s@h.example" % t), strip="/?#@[]\\")
+add("build.authority.user", "user", "other", lambda Y, t: Y.URL.build(scheme="http", authority="%s@h.example:81" % t), strip="/?#@:[]\\")
+add("with_password.nouser", "password", "quote", lambda Y, t: Y.URL("http://h.example/p").with_password(t), raw=lambda u: u.raw_password, readback=lambda u: u.password)
+add("with_user.nopassword", "user", "quote", lambda Y, t: Y.URL("http://h.example:0/p").with_user(t), raw=lambda u: u.raw_user, readback=lambda u: u.user, needs=lambda t: t != "")
+add("with_user.emptypassword", "user", "quote", lambda Y, t: Y.URL("http://u:@[::1]/p").with_user(t), raw=lambda u: u.raw_user, readback=lambda u: u.user, needs=lambda t: t != "")
+
 # -- modifiers (quoting routes) ----------------------------------------------------
 add("with_user", "user", "quote", lambda Y, t: _u(Y).with_user(t), raw=lambda u: u.raw_user, readback=lambda u: u.user, needs=lambda t: t != "")
 add("with_password", "password", "quote", lambda Y, t: _u(Y).with_password(t), raw=lambda u: u.raw_password, readback=lambda u: u.password)
